@@ -78,16 +78,17 @@ type writerRef struct {
 }
 
 type runner struct {
-	cs      caseSpec
-	env     *wenv
-	b       *built
-	actors  []*actor
-	m       model
-	writers map[string]writerRef // resource name + "|" + index + "|" + tag -> committed writer attempt
-	kinds   map[string]string    // resource name -> kind
-	trail   []string
-	file    bool // file-recorder mode: events come from the PGO_TRACE_DIR log
-	stats   *runStats
+	cs          caseSpec
+	env         *wenv
+	b           *built
+	actors      []*actor
+	m           model
+	writers     map[string]writerRef // resource name + "|" + index + "|" + tag -> committed writer attempt
+	kinds       map[string]string    // resource name -> kind
+	sharedStore map[string]string    // replay of committed writes to shared variables, all archetypes, commit order
+	trail       []string
+	file        bool // file-recorder mode: events come from the PGO_TRACE_DIR log
+	stats       *runStats
 }
 
 type runStats struct {
@@ -117,6 +118,26 @@ func strOf(v tla.Value) (s string) {
 	return v.StripVClock().AsString()
 }
 
+// valStr renders a value of these programs: a string tag, or a sequence of tags joined by commas.
+func valStr(v tla.Value) (s string) {
+	defer func() {
+		if x := recover(); x != nil {
+			s = fmt.Sprintf("<%v>", v)
+		}
+	}()
+	v = v.StripVClock()
+	if v.IsTuple() {
+		var parts []string
+		it := v.AsTuple().Iterator()
+		for !it.Done() {
+			_, e := it.Next()
+			parts = append(parts, strOf(e))
+		}
+		return strings.Join(parts, ",")
+	}
+	return v.AsString()
+}
+
 func dominates(a, b tla.VClock, actors []*actor) (bool, string) {
 	for _, x := range actors {
 		if a.Get(x.name, x.self) < b.Get(x.name, x.self) {
@@ -130,6 +151,17 @@ func newRunner(cs caseSpec, env *wenv, withFaulty bool, file bool, st *runStats)
 	r := &runner{cs: cs, env: env, m: initModel(cs.Sys), writers: map[string]writerRef{}, kinds: map[string]string{}, file: file, stats: st}
 	for _, rs := range cs.Sys.Res {
 		r.kinds[rs.Name] = rs.Kind
+	}
+	r.sharedStore = map[string]string{}
+	for _, rs := range cs.Sys.Res {
+		switch rs.Kind {
+		case "shared":
+			r.sharedStore[rs.Name] = r.m[rs.Name].cell
+		case "sharedfn", "sharedmap":
+			for k, v := range r.m[rs.Name].idx {
+				r.sharedStore[rs.Name+"["+k+"]"] = v
+			}
+		}
 	}
 	r.b = buildSystem(cs.Sys, env, withFaulty)
 	for a := 0; a < cs.Sys.NArch; a++ {
@@ -149,6 +181,13 @@ func newRunner(cs caseSpec, env *wenv, withFaulty bool, file bool, st *runStats)
 		env.execs++
 		ac := &actor{idx: a, name: archNames[a], self: tla.MakeString(fmt.Sprintf("%s%d", strings.ToLower(archNames[a]), env.w)), secs: secs, store: map[string]string{}}
 		ac.script = &gate2.Script{Prog: gate2.Program{Arch: ac.name, Vars: r.b.vars[a], Sections: secs}}
+		ac.script.ValueOf = func(o gate2.Op) (tla.Value, bool) {
+			if r.kinds[o.R] == "sharedfn" && o.I == nil && o.S == "" {
+				// a whole-variable write of a function-valued variable writes a new function (two fresh tags)
+				return tla.MakeTuple(tla.MakeString(o.V+"a"), tla.MakeString(o.V+"b")), true
+			}
+			return tla.Value{}, false
+		}
 		ac.script.AbortAt = func(sec, op, attempt int) bool {
 			return ac.armed.kind == "body" && ac.armed.k == op
 		}
@@ -224,6 +263,7 @@ type expElem struct {
 	hint    *string // write: expected previous-value hint (nil: the resource gives none)
 	res     string  // resource (variable) name, "" for .pc
 	private bool
+	keys    []string // writer-registry keys: for a read the values it depends on, for a write the values it creates
 }
 
 // stepActor runs one attempt of actor a (with its armed fault) and judges the logged event.
@@ -311,22 +351,35 @@ func (r *runner) stepActor(a *actor) *failure {
 				}
 				want = mr.queue[0]
 				mr.queue = mr.queue[1:]
+			case mr.idx != nil && idxKey(op) == "":
+				// the whole function-valued variable
+				want = mr.idx["1"] + "," + mr.idx["2"]
+				e.keys = []string{op.R + "|1|" + mr.idx["1"], op.R + "|2|" + mr.idx["2"]}
 			case mr.idx != nil:
 				want = mr.idx[idxKey(op)]
 			default:
 				want = mr.cell
 			}
-			got := strOf(o.Val)
+			got := valStr(o.Val)
 			if got != want {
 				return r.fail("harness/read-mismatch/"+kind, "%s op %d (%s) returned %s, the reference gives %s (C01 territory; the trace oracle needs a correct execution)", label, o.Op, op, got, want)
 			}
 			e.val = got
 		} else {
 			e.write = true
-			e.val = strOf(o.Val)
+			e.val = valStr(o.Val)
 			switch {
 			case isLink(kind):
 				pend[op.R] = append(pend[op.R], e.val)
+			case mr.idx != nil && idxKey(op) == "":
+				old := mr.idx["1"] + "," + mr.idx["2"]
+				e.hint = &old
+				parts := strings.SplitN(e.val, ",", 2)
+				if len(parts) != 2 {
+					return r.fail("harness/whole-write", "%s op %d wrote %s to a function-valued variable", label, o.Op, e.val)
+				}
+				mr.idx["1"], mr.idx["2"] = parts[0], parts[1]
+				e.keys = []string{op.R + "|1|" + parts[0], op.R + "|2|" + parts[1]}
 			case mr.idx != nil:
 				old := mr.idx[idxKey(op)]
 				e.hint = &old
@@ -336,6 +389,9 @@ func (r *runner) stepActor(a *actor) *failure {
 				e.hint = &old
 				mr.cell = e.val
 			}
+		}
+		if e.keys == nil {
+			e.keys = []string{e.res + "|" + e.idx + "|" + e.val}
 		}
 		exp = append(exp, e)
 	}
@@ -378,7 +434,7 @@ func (r *runner) stepActor(a *actor) *failure {
 			if renderIdx(el.Indices) != e.idx {
 				return r.fail("elements/indices", "event %d of %s element %d has indices %s, the attempt used [%s]", a.logged, a.name, i, renderIdx(el.Indices), e.idx)
 			}
-			if strOf(el.Value) != e.val {
+			if valStr(el.Value) != e.val {
 				return r.fail("elements/value/read", "event %d of %s element %d (%s.%s) logs value %v, the attempt read %s", a.logged, a.name, i, e.prefix, e.name, el.Value, e.val)
 			}
 			r.stats.reads++
@@ -392,7 +448,7 @@ func (r *runner) stepActor(a *actor) *failure {
 			if renderIdx(el.Indices) != e.idx {
 				return r.fail("elements/indices", "event %d of %s element %d has indices %s, the attempt used [%s]", a.logged, a.name, i, renderIdx(el.Indices), e.idx)
 			}
-			if strOf(el.Value) != e.val {
+			if valStr(el.Value) != e.val {
 				return r.fail("elements/value/write", "event %d of %s element %d (%s.%s) logs value %v, the attempt wrote %s", a.logged, a.name, i, e.prefix, e.name, el.Value, e.val)
 			}
 			if e.hint != nil {
@@ -403,7 +459,7 @@ func (r *runner) stepActor(a *actor) *failure {
 				if el.OldValueHint == nil {
 					return r.fail("elements/old-value/missing/"+kind, "event %d of %s element %d (%s.%s := %s) has no previous-value hint; the value before the write was %s", a.logged, a.name, i, e.prefix, e.name, e.val, *e.hint)
 				}
-				if strOf(*el.OldValueHint) != *e.hint {
+				if valStr(*el.OldValueHint) != *e.hint {
 					return r.fail("elements/old-value/wrong/"+kind, "event %d of %s element %d (%s.%s := %s) hints previous value %v; the value before the write within the attempt was %s", a.logged, a.name, i, e.prefix, e.name, e.val, *el.OldValueHint, *e.hint)
 				}
 				r.stats.hints++
@@ -439,35 +495,69 @@ func (r *runner) stepActor(a *actor) *failure {
 		return r.fail("elements/unlogged-operation", "the resources of %s saw %d reads/writes in %s, the event logs %d of them", a.name, len(truth), label, ti)
 	}
 
-	// ---- (b) replaying committed writes reproduces every logged read of archetype-local state
+	// ---- (b) replaying committed writes reproduces every logged read: of archetype-local state from the
+	// archetype's own log, and of shared variables from all logs merged in commit order (attempts are serialised
+	// by the driver and a shared variable is locked for the whole section, so that order is the serial order)
 	tmp := map[string]string{}
 	for k, v := range a.store {
 		tmp[k] = v
 	}
+	tmpSh := map[string]string{}
+	for k, v := range r.sharedStore {
+		tmpSh[k] = v
+	}
+	isSharedVar := func(res string) bool {
+		k := r.kinds[res]
+		return k == "shared" || k == "sharedfn" || k == "sharedmap"
+	}
 	for i, el := range ev.Elements {
+		var name string
+		var indices []tla.Value
+		var val tla.Value
+		write := false
 		switch el := el.(type) {
 		case trace.ReadElement:
-			key := el.Name
-			if idx := renderIdx(el.Indices); idx != "" {
-				key += "[" + idx + "]"
-			}
-			if want, ok := tmp[key]; ok && exp[i].private {
-				if strOf(el.Value) != want {
-					return r.fail("replay/read-not-reproduced", "event %d of %s element %d reads %s = %v, replaying the committed writes of the log gives %s", a.logged, a.name, i, key, el.Value, want)
-				}
-			}
+			name, indices, val = el.Name, el.Indices, el.Value
 		case trace.WriteElement:
-			if exp[i].private {
-				key := el.Name
-				if idx := renderIdx(el.Indices); idx != "" {
-					key += "[" + idx + "]"
+			name, indices, val, write = el.Name, el.Indices, el.Value, true
+		}
+		var store map[string]string
+		switch {
+		case exp[i].private:
+			store = tmp
+		case isSharedVar(exp[i].res):
+			store = tmpSh
+		default:
+			continue
+		}
+		idx := renderIdx(indices)
+		keys := []string{name}
+		vals := []string{valStr(val)}
+		if idx != "" {
+			keys = []string{name + "[" + idx + "]"}
+		} else if r.kinds[exp[i].res] == "sharedfn" {
+			// whole access to the function-valued variable = access to both of its elements
+			keys = []string{name + "[1]", name + "[2]"}
+			vals = strings.SplitN(valStr(val), ",", 2)
+			if len(vals) != 2 {
+				return r.fail("replay/shape", "event %d of %s element %d logs %v for the function-valued variable %s", a.logged, a.name, i, val, name)
+			}
+		}
+		for j, key := range keys {
+			if write {
+				store[key] = vals[j]
+			} else if want, ok := store[key]; ok && vals[j] != want {
+				which := "replay/read-not-reproduced"
+				if !exp[i].private {
+					which = "replay/shared-read-not-reproduced"
 				}
-				tmp[key] = strOf(el.Value)
+				return r.fail(which, "event %d of %s element %d reads %s = %s, replaying the committed writes of the log(s) gives %s", a.logged, a.name, i, key, vals[j], want)
 			}
 		}
 	}
 	if !ev.IsAbort {
 		a.store = tmp
+		r.sharedStore = tmpSh
 	}
 
 	// ---- (c) own component grows by one per logged attempt
@@ -480,20 +570,29 @@ func (r *runner) stepActor(a *actor) *failure {
 		if e.write || e.res == "" {
 			continue
 		}
-		w, ok := r.writers[e.res+"|"+e.idx+"|"+e.val]
-		if !ok {
-			continue // an initial value
-		}
-		if w.arch != a.idx {
-			r.stats.crossReads++
-		}
-		if ok, why := dominates(ev.Clock, w.clock, r.actors); !ok {
-			via := r.kinds[e.res]
-			scope := "cross-archetype"
-			if w.arch == a.idx {
-				scope = "same-archetype"
+		for _, key := range e.keys {
+			w, ok := r.writers[key]
+			if !ok {
+				continue // an initial value
 			}
-			return r.fail("clock/not-dominating/"+via+"/"+scope, "event %d of %s (clock %v) read %s = %s (element %d), written by %s whose logged clock is %v: %s", a.logged, a.name, ev.Clock, e.res, e.val, i, w.desc, w.clock, why)
+			if w.arch != a.idx {
+				r.stats.crossReads++
+			}
+			if ok, why := dominates(ev.Clock, w.clock, r.actors); !ok {
+				via := r.kinds[e.res]
+				if via == "sharedfn" {
+					if e.idx == "" {
+						via += "-whole"
+					} else {
+						via += "-indexed"
+					}
+				}
+				scope := "cross-archetype"
+				if w.arch == a.idx {
+					scope = "same-archetype"
+				}
+				return r.fail("clock/not-dominating/"+via+"/"+scope, "event %d of %s (clock %v) read %s[%s] = %s (element %d), which contains %s written by %s whose logged clock is %v: %s", a.logged, a.name, ev.Clock, e.res, e.idx, e.val, i, key, w.desc, w.clock, why)
+			}
 		}
 	}
 
@@ -513,7 +612,9 @@ func (r *runner) stepActor(a *actor) *failure {
 	r.m = t
 	for _, e := range exp {
 		if e.write && e.res != "" {
-			r.writers[e.res+"|"+e.idx+"|"+e.val] = writerRef{arch: a.idx, attempt: a.logged, clock: ev.Clock, desc: fmt.Sprintf("event %d of %s (%s)", a.logged, a.name, label)}
+			for _, key := range e.keys {
+				r.writers[key] = writerRef{arch: a.idx, attempt: a.logged, clock: ev.Clock, desc: fmt.Sprintf("event %d of %s (%s)", a.logged, a.name, label)}
+			}
 		}
 	}
 	a.sec++
